@@ -520,6 +520,14 @@ fn hexstr_of(t: &Tab) -> String {
 }
 
 pub fn gen_c09(c: &mut Ctx) {
+    // the same one-digit string at the three sizes that take one digit, descending and ascending
+    // (seed C09-k: a memo of the last parsed string that forgets the size)
+    for ty in ["D", "S"] {
+        for d in b"0123456789abcdefABCDEF" {
+            p!(c, "seq fromhex {} 2 {:02x} ;; fromhex {} 1 {:02x} ;; fromhex {} 0 {:02x}", ty, d, ty, d, ty, d);
+            p!(c, "seq fromhex {} 0 {:02x} ;; fromhex {} 1 {:02x} ;; fromhex {} 2 {:02x}", ty, d, ty, d, ty, d);
+        }
+    }
     let reps = if c.thorough { 12 } else { 4 };
     let alphabet: Vec<&str> = vec![
         "0", "1", "2", "7", "9", "a", "c", "f", "A", "F", "+", "-", " ", "g", "x", "G", "é", "€", "0", "f",
@@ -934,6 +942,72 @@ pub fn gen_c04(c: &mut Ctx) {
                     prep.bit(x)
                 });
                 p!(c, "pcanon {} {}", ty, rev.show());
+            }
+        }
+        c.leave(saved);
+    }
+    {
+        // named functions at every size: constants, projections, parity, AND / OR of all
+        // inputs, one minterm (seed C04-j: P canonization of the constant one panics for n >= 6)
+        let saved = c.enter("C04-named");
+        for n in 4..=8usize {
+            let tabs: Vec<Tab> = vec![
+                Tab::zero(n),
+                Tab::from_fn(n, |_| true),
+                Tab::from_fn(n, |m| m & 1 != 0),
+                Tab::from_fn(n, |m| (m >> (n - 1)) & 1 != 0),
+                Tab::from_fn(n, |m| m.count_ones() % 2 == 1),
+                Tab::from_fn(n, |m| m == (1 << n) - 1),
+                Tab::from_fn(n, |m| m != 0),
+                Tab::from_fn(n, |m| m == 0),
+                Tab::from_fn(n, |m| m != (1 << n) - 2),
+            ];
+            for (ti, t) in tabs.iter().enumerate() {
+                for (yi, ty) in ["D", "S"].iter().enumerate() {
+                    for op in ops {
+                        if n >= 8 && op == "npncanon" && !c.thorough {
+                            continue;
+                        }
+                        // the model needs seconds for an NPN walk of 7 variables: types alternate
+                        if n == 7 && op == "npncanon" && !c.thorough && (ti + yi) % 2 == 1 {
+                            continue;
+                        }
+                        p!(c, "{} {} {}", op, ty, t.show());
+                    }
+                }
+            }
+        }
+        c.leave(saved);
+    }
+    {
+        // functions of few variables embedded in 7 or 8: unused variables, no symmetry (seed C05-j:
+        // a fast path that canonizes on the support and composes the certificate the wrong way round)
+        let saved = c.enter("C04-embedded");
+        for n in 7..=8usize {
+            for k in 0..(if c.thorough { 16 } else { 6 }) {
+                let sup = 3 + k % 3;
+                let mut vars: Vec<usize> = Vec::new();
+                while vars.len() < sup {
+                    let v = c.rng.below(n);
+                    if !vars.contains(&v) {
+                        vars.push(v);
+                    }
+                }
+                let g = c.rng.next();
+                let t = Tab::from_fn(n, |m| {
+                    let mut idx = 0usize;
+                    for (j, v) in vars.iter().enumerate() {
+                        idx |= ((m >> v) & 1) << j;
+                    }
+                    (g >> idx) & 1 != 0
+                });
+                let ty = if k % 2 == 0 { "D" } else { "S" };
+                for op in ops {
+                    if n >= 8 && op == "npncanon" && !c.thorough {
+                        continue;
+                    }
+                    p!(c, "{} {} {}", op, ty, t.show());
+                }
             }
         }
         c.leave(saved);
@@ -1556,6 +1630,80 @@ pub fn gen_c14(c: &mut Ctx) {
             p!(c, "sop fromlut {}", t.show());
         }
     }
+    // expressions nesting up to four operations (the property's quantifier), every operand form
+    {
+        let saved = c.enter("C14-expr");
+        for n in 0..=10usize {
+            for _ in 0..(if c.thorough { 40 } else { 8 }) {
+                let ops = 2 + c.rng.below(3);
+                let kmax = if n <= 4 { 6 } else { 4 };
+                let toks = rand_expr(&mut c.rng, n, ops, kmax, &["&", "|", "!"]);
+                p!(c, "sop expr {} {}", n, toks.join(" "));
+            }
+        }
+        // long product lists: (a & b) & (c & d) over 10 variables with twelve two-literal cubes
+        // each - thousands of distinct products in the last step (seed C14-k: a batched
+        // pre-pass for lists of more than 4096 cubes loses the last partial batch)
+        for round in 0..(if c.thorough { 8 } else { 3 }) {
+            // operands over disjoint groups of variables, every polarity: no product is
+            // contradictory and few are absorbed.  Round 0: variables in their natural order and
+            // no cube left out (the products that sort last all hold the highest variable)
+            let mut perm: Vec<usize> = (0..10).collect();
+            if round > 0 {
+                for i in (1..10).rev() {
+                    let j = c.rng.below(i + 1);
+                    perm.swap(i, j);
+                }
+            }
+            let mut drop: Vec<bool> = (0..64).map(|_| round > 0 && c.rng.below(8) == 0).collect();
+            let mut two_lit = |pairs: &[(usize, usize)]| -> Vec<(u32, u32)> {
+                let mut l = Vec::new();
+                for (x, y) in pairs {
+                    for pol in 0..4u32 {
+                        // a few cubes left out: with all four polarities of every pair the operand
+                        // is a tautology and a lost product changes nothing
+                        if drop.pop().unwrap_or(false) {
+                            continue;
+                        }
+                        let mut cu = (0u32, 0u32);
+                        if pol & 1 != 0 { cu.0 |= 1 << x } else { cu.1 |= 1 << x }
+                        if pol & 2 != 0 { cu.0 |= 1 << y } else { cu.1 |= 1 << y }
+                        l.push(cu);
+                    }
+                }
+                l
+            };
+            let g = |k: usize| [(perm[3 * k], perm[3 * k + 1]), (perm[3 * k], perm[3 * k + 2]), (perm[3 * k + 1], perm[3 * k + 2])];
+            let ops: Vec<String> = vec![
+                scl(&two_lit(&g(0))),
+                scl(&two_lit(&g(1))),
+                scl(&two_lit(&g(2))),
+                scl(&two_lit(&[(perm[9], perm[0]), (perm[9], perm[1]), (perm[9], perm[2])])),
+            ];
+            p!(c, "sop expr 10 {} {} & {} {} & &", ops[0], ops[1], ops[2], ops[3]);
+        }
+        c.leave(saved);
+    }
+}
+
+/// random expression in reverse Polish notation with `ops` operators over cube lists of at most
+/// `kmax` cubes (`!` is unary)
+fn rand_expr(r: &mut Rng, n: usize, ops: usize, kmax: usize, syms: &[&str]) -> Vec<String> {
+    if ops == 0 {
+        return vec![scl(&rand_cube_list(r, n, kmax))];
+    }
+    let op = *r.pick(syms);
+    if op == "!" {
+        let mut v = rand_expr(r, n, ops - 1, kmax, syms);
+        v.push("!".to_string());
+        v
+    } else {
+        let left = r.below(ops);
+        let mut v = rand_expr(r, n, left, kmax, syms);
+        v.extend(rand_expr(r, n, ops - 1 - left, kmax, syms));
+        v.push(op.to_string());
+        v
+    }
 }
 
 pub fn gen_c15(c: &mut Ctx) {
@@ -1605,6 +1753,16 @@ pub fn gen_c15(c: &mut Ctx) {
         p!(c, "esop info {} 0/0,0/0", n);
         p!(c, "esop tolut {} 0/0,0/0", n);
     }
+    // nested expressions of ^ and !
+    let saved = c.enter("C15-expr");
+    for n in 0..=10usize {
+        for _ in 0..(if c.thorough { 30 } else { 6 }) {
+            let ops = 2 + c.rng.below(3);
+            let toks = rand_expr(&mut c.rng, n, ops, 5, &["^", "^", "!"]);
+            p!(c, "esop expr {} {}", n, toks.join(" "));
+        }
+    }
+    c.leave(saved);
 }
 
 pub fn gen_c16(c: &mut Ctx) {
@@ -1862,6 +2020,44 @@ fn line_size(t: &[&str]) -> Option<usize> {
     None
 }
 
+/// the line with its size `a` replaced by `b`, other arguments kept (tables: only between sizes that
+/// fit one word; the word is masked to the new size)
+fn resize_line(l: &str, a: usize, b: usize) -> Option<String> {
+    let t: Vec<&str> = l.split_whitespace().collect();
+    let mut out: Vec<String> = Vec::new();
+    let mut changed = false;
+    let has_tab = t.iter().skip(1).any(|s| s.split_once(':').map_or(false, |(x, _)| x.parse::<usize>().is_ok()));
+    for (i, s) in t.iter().enumerate() {
+        if has_tab {
+            if let Some((x, w)) = s.split_once(':') {
+                if x.parse::<usize>().ok() == Some(a) {
+                    if a > 6 || b > 6 || w.contains(',') {
+                        return None;
+                    }
+                    let v = u64::from_str_radix(w, 16).ok()? & mask_of(b);
+                    out.push(format!("{}:{:x}", b, v));
+                    changed = true;
+                    continue;
+                }
+            }
+        } else if (i == 2 || i == 3) && !changed && s.parse::<usize>().ok() == Some(a) {
+            // other arguments (variable indices, cube masks) stay valid only when the size grows
+            if b < a && t[0] != "fromhex" {
+                return None;
+            }
+            out.push(b.to_string());
+            changed = true;
+            continue;
+        }
+        out.push(s.to_string());
+    }
+    if changed {
+        Some(out.join(" "))
+    } else {
+        None
+    }
+}
+
 /// State kept between calls (caches, memos, statics shared by all sizes of a generic type) shows
 /// only in sequences of calls.  The order pass replays the workload backwards; in addition, for
 /// every family of lines (same operation, same type) two-call sequences over DIFFERENT sizes are
@@ -1925,6 +2121,20 @@ fn add_cross_sequences(c: &mut Ctx) {
             let la = rep(c, a);
             let lb = rep(c, b);
             seqs.push(format!("seq {} ;; {}", la, lb));
+        }
+        // the SAME arguments at another size (seeds C05-i, C09-k: results remembered under a key
+        // that leaves the size out): the size token replaced, single-word tables masked
+        for _ in 0..2 {
+            let a = ns[c.rng.below(ns.len())];
+            let b = ns[c.rng.below(ns.len())];
+            if a == b {
+                continue;
+            }
+            let la = rep(c, a);
+            if let Some(lb) = resize_line(&la, a, b) {
+                seqs.push(format!("seq {} ;; {}", la, lb));
+                seqs.push(format!("seq {} ;; {}", lb, la));
+            }
         }
     }
     // a bounded number per property, spread over the families
